@@ -34,6 +34,9 @@ import (
 	"gopkg.in/src-d/hercules.v10/verifharness/hv"
 )
 
+// phantom[k]: commit k also names a parent hash that is not among the analysed commits (1: first, 2: last)
+var phantom = map[int]int{}
+
 var kinds = []string{"C", "F", "M", "E", "D", "H", "B"}
 
 func distinct(ps []int) []int {
@@ -379,8 +382,17 @@ func one(wo, wi interface{ WriteString(string) (int, error) }, parents [][]int, 
 	cs := make([]*object.Commit, N)
 	for k := range parents {
 		c := &object.Commit{Hash: hashes[k]}
+		// a parent that is not among the analysed commits (first-parent walks, explicit commit lists, shallow clones):
+		// the planner must ignore it, so the validator is given the graph without it
+		ghost := plumbing.NewHash(fmt.Sprintf("ffff%04x00000000000000000000000000000000", k))
+		if phantom[k] == 1 {
+			c.ParentHashes = append(c.ParentHashes, ghost)
+		}
 		for _, p := range parents[k] {
 			c.ParentHashes = append(c.ParentHashes, hashes[p])
+		}
+		if phantom[k] == 2 {
+			c.ParentHashes = append(c.ParentHashes, ghost)
 		}
 		cs[k] = c
 	}
@@ -397,6 +409,9 @@ func one(wo, wi interface{ WriteString(string) (int, error) }, parents [][]int, 
 	key := fmt.Sprintf("%s|%v|%d", pstr(parents), perm, dist)
 	mk := func() string {
 		m := map[string]interface{}{"parents": parents, "hash_order": perm, "distance": dist, "key": key}
+		if len(phantom) > 0 {
+			m["parents_outside_the_analysed_set"] = phantom
+		}
 		if small {
 			m["scope"] = "small"
 		}
@@ -580,7 +595,17 @@ func main() {
 				}
 			}
 			perm := rng.Perm(n)
+			phantom = map[int]int{}
+			if rng.Intn(4) == 0 {
+				for c := 0; c < n; c++ {
+					if rng.Intn(4) == 0 {
+						phantom[c] = 1 + rng.Intn(2)
+					}
+				}
+				stats["graphs-with-parents-outside-the-set"]++
+			}
 			one(wo, wi, parents, perm, rng.Intn(5), false)
+			phantom = map[int]int{}
 		}
 	}
 	hv.Stats(stats)
